@@ -1,10 +1,10 @@
 package main
 
 import (
-	"os"
 	"fmt"
 	"go/token"
 	"go/types"
+	"os"
 	"strings"
 
 	"golang.org/x/tools/go/ssa"
@@ -280,14 +280,28 @@ func c14IndexAfterCommit(c *Ctx) {
 	if n < 2 {
 		c.und("index-after-commit", "entriesByHeight", "", "index mutations not found")
 	}
-	fl := wsFunc(p, "tendermintWALStore", "flushLocked")
+	fl := c14FlushBody(p)
 	if fl == nil {
 		c.und("index-after-commit", "flushLocked", "", "anchor not found")
 		return
 	}
 	up := findSite(fl, "updateIndexesFromCommittedRecords")
+	var upDeep *deepSite
 	if up == nil {
+		if dss := p.deepSites(fl, nameMatcher("updateIndexesFromCommittedRecords"), 2); len(dss) > 0 && len(dss[0].Chain) > 0 {
+			upDeep = &dss[0]
+		}
+	}
+	if up == nil && upDeep == nil {
 		c.viol("index-after-commit", "flushLocked → updateIndexes", p.Pos(fnPos(fl)), "flush no longer updates the live index from the committed records")
+	} else if upDeep != nil {
+		// the post-commit steps were moved into a helper: judged with the helper's call in place of the update
+		d := p.mustHoldDeep(*upDeep)
+		ok, miss := everyDisjunctHas(d, []string{"$.committed"}, []string{"^!", "appendSync(", "!= nil"})
+		app := findSite(fl, "appendSync")
+		outer := upDeep.Chain[0]
+		c.check(ok && app != nil && dominatesInstr(app.Instr, outer.Instr), "index-after-commit", "flushLocked → updateIndexesFromCommittedRecords", p.Pos(outer.Pos()),
+			"index updated only after appendSync succeeded or reported committed", "the live index is updated on a path where the batch was not committed: "+miss)
 	} else {
 		d := p.mustHoldAt(up.Instr)
 		ok, miss := everyDisjunctHas(d, []string{"$.committed"}, []string{"^!", "appendSync(", "!= nil"})
@@ -878,23 +892,27 @@ func c14CleanupAndSeq(c *Ctx) {
 	} else {
 		c.und("min-over-all-refs", "cleanupObsoleteWALs", "", "anchor not found")
 	}
-	if f := wsFunc(p, "tendermintWALStore", "flushLocked"); f != nil {
+	if f := c14FlushBody(p); f != nil {
 		n := 0
-		allInstrs(f, func(in ssa.Instruction) {
+		var scopeInstrs []ssa.Instruction
+		for _, g := range samePkgScope(f, 1) {
+			allInstrs(g, func(in ssa.Instruction) { scopeInstrs = append(scopeInstrs, in) })
+		}
+		for _, in := range scopeInstrs {
 			st, ok := in.(*ssa.Store)
 			if !ok {
-				return
+				continue
 			}
 			fa, ok := st.Addr.(*ssa.FieldAddr)
 			if !ok || fieldName(fa.X.Type(), fa.Field) != "nextBatchSeqNum" {
-				return
+				continue
 			}
 			n++
 			t := term(st.Val)
 			b, isB := st.Val.(*ssa.BinOp)
 			ok2 := isB && b.Op == token.ADD && strings.HasSuffix(term(b.X), "nextBatchSeqNum") && !strings.Contains(term(b.Y), " - ") && strings.Contains(termF(b.Y), "len(")
-			c.check(ok2, "seq-per-record", "flushLocked: nextBatchSeqNum", p.Pos(posOf(in, f)), "advanced by the number of records of the batch", "the batch sequence number advances by "+t+" instead of by the number of records written: a later batch reuses a sequence number and Pebble's WAL reader silently drops it on reopen")
-		})
+			c.check(ok2, "seq-per-record", "flushLocked: nextBatchSeqNum", p.Pos(posOf(in, in.Parent())), "advanced by the number of records of the batch", "the batch sequence number advances by "+t+" instead of by the number of records written: a later batch reuses a sequence number and Pebble's WAL reader silently drops it on reopen")
+		}
 		if n == 0 {
 			c.und("seq-per-record", "flushLocked", p.Pos(fnPos(f)), "store to nextBatchSeqNum not found")
 		}
@@ -1108,4 +1126,19 @@ func c14IsNotBelowWatermark(a, wf string) bool {
 		return o == ">="
 	}
 	return false
+}
+
+// c14FlushBody: the function that holds the flush's commit step — flushLocked itself, or the piece of it (a same-package
+// function only flushLocked reaches) that contains the appendSync call when the flush was split up.
+func c14FlushBody(p *Prog) *ssa.Function {
+	fl := wsFunc(p, "tendermintWALStore", "flushLocked")
+	if fl == nil || findSite(fl, "appendSync") != nil {
+		return fl
+	}
+	for _, g := range samePkgScope(fl, 2) {
+		if g != fl && findSite(g, "appendSync") != nil && p.calledOnlyFrom(g, "flushLocked", 0) {
+			return g
+		}
+	}
+	return fl
 }
